@@ -386,4 +386,128 @@ theorem gaussSolve_unique (A : List (Vec K)) (b : Vec K) (n : Nat) (hb : b.lengt
     List.getD_eq_getElem?_getD (l := gjLoop n n 0 (augment A b)), List.getElem?_eq_getElem (by rw [hwf.len]; exact hr)]
   rfl
 
+/-! ### a regular matrix has no vanishing pivot -/
+section regular
+variable [IsStrictOrderedRing K]
+
+theorem fabs_nonneg (a : K) : 0 ≤ fabs a := by
+  unfold fabs; split
+  · rename_i h; exact le_of_lt (neg_pos.mpr h)
+  · rename_i h; exact not_lt.mp h
+
+theorem fabs_eq_zero {a : K} (h : fabs a = 0) : a = 0 := by
+  unfold fabs at h; split at h
+  · exact neg_eq_zero.mp h
+  · exact h
+
+/-- the pivot row carries the largest modulus of column `k` among the rows `k..n-1` -/
+theorem pivotIdx_max (M : List (Vec K)) (k n : Nat) (i : Nat) (hki : k ≤ i) (hin : i < n) :
+    fabs (ent M i k) ≤ fabs (ent M (pivotIdx M k n) k) := by
+  unfold pivotIdx
+  have key : ∀ (l : List Nat) (p0 : Nat),
+      fabs (ent M p0 k) ≤ fabs (ent M (l.foldl (fun piv i => if fabs ((M.getD piv []).getD k 0) < fabs ((M.getD i []).getD k 0) then i else piv) p0) k) ∧
+      ∀ j ∈ l, fabs (ent M j k) ≤ fabs (ent M (l.foldl (fun piv i => if fabs ((M.getD piv []).getD k 0) < fabs ((M.getD i []).getD k 0) then i else piv) p0) k) := by
+    intro l
+    induction l with
+    | nil => intro p0; exact ⟨le_refl _, fun j hj => absurd hj List.not_mem_nil⟩
+    | cons a t ih =>
+      intro p0
+      simp only [List.foldl_cons]
+      obtain ⟨h1, h2⟩ := ih (if fabs ((M.getD p0 []).getD k 0) < fabs ((M.getD a []).getD k 0) then a else p0)
+      have hp0 : fabs (ent M p0 k) ≤ fabs (ent M (if fabs ((M.getD p0 []).getD k 0) < fabs ((M.getD a []).getD k 0) then a else p0) k) := by
+        split
+        · rename_i hlt; exact le_of_lt hlt
+        · exact le_refl _
+      have ha : fabs (ent M a k) ≤ fabs (ent M (if fabs ((M.getD p0 []).getD k 0) < fabs ((M.getD a []).getD k 0) then a else p0) k) := by
+        split
+        · exact le_refl _
+        · rename_i hnlt; exact not_lt.mp hnlt
+      refine ⟨le_trans hp0 h1, fun j hj => ?_⟩
+      rcases List.mem_cons.mp hj with rfl | hj
+      · exact le_trans ha h1
+      · exact h2 j hj
+  have := (key (List.range' k (n - k)) k).2 i (by rw [List.mem_range'_1]; omega)
+  exact this
+
+/-- the right-hand side column is zero -/
+def RhsZero (n : Nat) (M : List (Vec K)) : Prop := ∀ r, r < n → ent M r n = 0
+
+theorem step_rhsZero {n : Nat} {M : List (Vec K)} (h : WF n M) (k : Nat) (hk : k < n) (hz : RhsZero n M) :
+    RhsZero n (gjStep M k n) := by
+  obtain ⟨hp1, hp2⟩ := pivotIdx_range M k n hk
+  have hz1 : ∀ r, r < n → ent (swapRows M k (pivotIdx M k n)) r n = 0 := by
+    intro r hr
+    rw [swap_ent h k _ hk hp2]
+    split
+    · exact hz k hk
+    · split
+      · exact hz _ hp2
+      · exact hz r hr
+  intro r hr
+  rw [gjStep_ent h k hk r n hr (Nat.lt_succ_self n)]
+  split
+  · rw [hz1 k hk, zero_div]
+  · rw [hz1 r hr, hz1 k hk, zero_div, mul_zero, sub_zero]
+
+/-- if the pivot of step `k` vanishes, the homogeneous system of the rows has a solution with `x k = 1` -/
+theorem kernel_of_zero_pivot {n : Nat} {M : List (Vec K)} (h : WF n M) (k : Nat) (hk : k < n) (hc : Col n k M)
+    (hz : RhsZero n M) (hp : pivotOf M k n = 0) :
+    Sat n (fun j => if j < k then -ent M j k else if j = k then 1 else 0) M := by
+  obtain ⟨hp1, hp2⟩ := pivotIdx_range M k n hk
+  -- the whole column `k` vanishes below the diagonal
+  have hpiv : ent M (pivotIdx M k n) k = 0 := by
+    have : pivotOf M k n = ent (swapRows M k (pivotIdx M k n)) k k := rfl
+    rw [this, swap_ent h k _ hk hp2] at hp
+    split at hp
+    · rename_i e; rw [← e]; exact hp
+    · simpa using hp
+  have hcol : ∀ i, k ≤ i → i < n → ent M i k = 0 := by
+    intro i hki hin
+    have := pivotIdx_max M k n i hki hin
+    rw [hpiv] at this
+    have h0 : fabs (0 : K) = 0 := by simp [fabs]
+    rw [h0] at this
+    exact fabs_eq_zero (le_antisymm this (fabs_nonneg _))
+  intro r hr
+  rw [hz r hr]
+  have hterm : ∀ j ∈ Finset.range n, ent M r j * (if j < k then -ent M j k else if j = k then 1 else 0) =
+      (if r = j then (if j < k then -ent M j k else 0) else 0) + (if k = j then ent M r k else 0) := by
+    intro j hj
+    have hjn := Finset.mem_range.mp hj
+    by_cases hjk : j < k
+    · rw [if_pos hjk, hc r hr j hjk, if_pos hjk, if_neg (by omega : ¬ k = j)]
+      split <;> simp
+    · rw [if_neg hjk]
+      by_cases hjk' : j = k
+      · subst hjk'
+        simp
+      · rw [if_neg hjk', if_neg (by omega : ¬ k = j), if_neg hjk]
+        simp
+  rw [Finset.sum_congr rfl hterm, Finset.sum_add_distrib, Finset.sum_ite_eq, Finset.sum_ite_eq,
+    if_pos (Finset.mem_range.mpr hr), if_pos (Finset.mem_range.mpr hk)]
+  by_cases hrk : r < k
+  · rw [if_pos hrk]; ring
+  · rw [if_neg hrk, hcol r (by omega) hr]; ring
+
+/-- when the homogeneous system of the rows has only the zero solution, no pivot vanishes -/
+theorem gjPivots_ne_zero (n : Nat) : ∀ (fuel k : Nat) (M : List (Vec K)), k + fuel ≤ n → WF n M → Col n k M → RhsZero n M →
+    (∀ x : Nat → K, Sat n x M → ∀ j, j < n → x j = 0) → ∀ p ∈ gjPivots n fuel k M, p ≠ 0 := by
+  intro fuel
+  induction fuel with
+  | zero => intro k M _ _ _ _ _ p hp; simp [gjPivots] at hp
+  | succ f ih =>
+    intro k M hkf h hc hz hinj p hp
+    have hk : k < n := by omega
+    have hpk : pivotOf M k n ≠ 0 := by
+      intro h0
+      have := hinj _ (kernel_of_zero_pivot h k hk hc hz h0) k hk
+      simp at this
+    simp only [gjPivots, List.mem_cons] at hp
+    rcases hp with rfl | hp
+    · exact hpk
+    · exact ih (k + 1) (gjStep M k n) (by omega) (gjStep_wf h k hk) (step_col h k hk hc hpk) (step_rhsZero h k hk hz)
+        (fun x hs => hinj x (step_sat_bwd h k hk x hpk hs)) p hp
+
+end regular
+
 end Lbfgsb.Gauss
